@@ -1,0 +1,17 @@
+//go:build verif
+
+package index
+
+// VerifAwaitReindex blocks until the asynchronous out-of-order indexing started so far has drained.
+// It exists only under the "verif" build tag, for the verification harness in /verif.
+func (x *Index) VerifAwaitReindex() {
+	x.reindexWg.Wait()
+}
+
+// VerifPendingCounts reports how many blobs still wait for a missing dependency and how many are queued
+// for re-indexing. Only under the "verif" build tag.
+func (x *Index) VerifPendingCounts() (needs, ready int) {
+	x.RLock()
+	defer x.RUnlock()
+	return len(x.needs), len(x.readyReindex)
+}
